@@ -310,7 +310,9 @@ def _hooks(ctx):
         return {"k": "assign", "lhs": ex.expr(node.lhs), "rhs": ex.expr(node.rhs)}
 
     def directive(ex, node):
-        return {"k": "block", "body": ex.body(node.dir_body)}
+        # serial semantics of a directive = its body, in place (so that programs
+        # differing only in directives are the same pv-ast and evaluated once)
+        return ex.body(node.dir_body)
 
     def standalone(ex, node):
         return None
@@ -455,18 +457,27 @@ def build_case(args):
 
 
 def tlc_case(rec):
-    '''The part of a case record TLC reads.'''
+    '''The part of a case record TLC reads.  Histories whose generated loop
+    nests are the same pv-ast are evaluated once (`hist` lists them all).'''
     desc = rec["desc"]
     labels = kernel_labels(desc)
     offs = {k["off"] for k in desc["kernels"]} - {"go_offset_any"}
+    progs, index = [], {}
+    for p in rec["progs"]:
+        key = dumps([p["body"], p["subs"], p["clb"]])
+        if key in index:
+            progs[index[key]]["hists"].append("+".join(p["hist"]))
+            continue
+        index[key] = len(progs)
+        progs.append({"body": p["body"], "subs": p["subs"], "locals": p["locals"],
+                      "members": p["members"], "clb": p["clb"],
+                      "hist": "+".join(p["hist"]), "hists": ["+".join(p["hist"])]})
     return {"id": rec["id"],
             "kernels": [{"off": k["off"], "pt": k["pt"], "sp": k["sp"], "label": labels[n]}
                         for n, k in enumerate(desc["kernels"])],
             "fields": fields_of(desc),
             "goffs": sorted(offs) if offs else ["go_offset_ne", "go_offset_sw"],
-            "progs": [{"body": p["body"], "subs": p["subs"], "locals": p["locals"],
-                       "members": p["members"], "clb": p["clb"],
-                       "hist": "+".join(p["hist"])} for p in rec["progs"]]}
+            "progs": progs}
 
 
 def dumps(obj):
